@@ -1,6 +1,6 @@
 (* Properties_C04.v — obligations of property C04 (a callback fires exactly when its field changes,
    and sees the new value). *)
-Require Import ObsRun Lemmas_Cb Lemmas_CbText Lemmas_CbRt Lemmas_CbAf Lemmas_ObsCb.
+Require Import ObsRun Lemmas_Cb Lemmas_CbText Lemmas_CbRt Lemmas_CbAf Lemmas_ObsCb Lemmas_Redeliver.
 Local Open Scope Z_scope.
 
 (* For EVERY state, every group and each of PI, PTY, TP, TA, MS, ECC, country: the callbacks of that
@@ -85,6 +85,27 @@ Theorem C04_af_callbacks : forall conv lut h g s, reach conv lut h s -> wf_group
   else evs = [] /\ a2 = a0.
 Proof. exact af_callbacks. Qed.
 Print Assumptions C04_af_callbacks.
+
+(* RE-DELIVERY (the last clause of the property, for every field): in normal mode, delivering the
+   same group again immediately after it changes nothing the getters show — all seven scalars, the
+   AF list, every cell and level of every text, the A/B register — and the only callback it can
+   make is clock time.  For every reachable state and every group (and any ECC table whose entries
+   are country enumerators — checked for the measured table in C11). *)
+Theorem C04_redelivery_changes_nothing : forall conv lut, (forall n e, 0 <= lut n e < 221) ->
+  forall h s g, reach conv lut h s -> no_ext h = true -> wf_group g ->
+  let s1 := fst (process conv lut g s) in let s2 := fst (process conv lut g s1) in
+  used s2 = used s1 /\ (forall sl, cells (get_text sl s2) = cells (get_text sl s1)) /\ last_rt s2 = last_rt s1.
+Proof.
+  intros conv lut Hl h s g Hr Hn W. cbv zeta. split.
+  - exact (redelivery_state conv lut Hl h s g Hr Hn W).
+  - exact (texts_redelivery conv lut g s (reach_inv conv lut h s Hr) W).
+Qed.
+Print Assumptions C04_redelivery_changes_nothing.
+Theorem C04_redelivery_silent : forall conv lut, (forall n e, 0 <= lut n e < 221) ->
+  forall h s g, reach conv lut h s -> no_ext h = true -> wf_group g ->
+  forall e, In e (snd (process conv lut g (fst (process conv lut g s)))) -> ev_field e = FCT.
+Proof. exact redelivery_silent. Qed.
+Print Assumptions C04_redelivery_silent.
 
 (* no callback at all outside a successful parse call *)
 Theorem C04_only_parse_calls_notify : forall conv lut s o,
